@@ -466,15 +466,39 @@ func (g *scopegen) stmt(s *sgScope) {
 	case 25:
 		if g.o.Sloppy && !s.strict && !g.o.NoWith {
 			n := g.name()
-			g.line("with ({%s: %d}) {", n, g.uniq())
-			g.indent++
-			g.probe()
-			g.probe()
-			if g.rng.Bool() {
-				g.line("(function () { try { $(%d, %s); } catch { } })();", g.k, n)
+			switch form := g.rng.Intn(4); {
+			case form == 0 && s.canVar(n):
+				// a "var" whose initialiser lands on the object's property: block-less body
+				s.addVar(n)
+				g.decls++
+				g.k++
+				k := g.k
+				g.line("var w$%d = {%s: %d}; with (w$%d) var %s = %d;", k, n, g.uniq(), k, n, g.uniq())
+				g.line("try { $(%d, %s, w$%d.%s); } catch { $(%d, \"!\"); }", k, n, k, n, k)
+			case form == 1 && s.canVar(n):
+				// the same inside a block body, followed by references inside and outside the with
+				s.addVar(n)
+				g.decls++
+				g.k++
+				k := g.k
+				g.line("var w$%d = {%s: %d}; with (w$%d) {", k, n, g.uniq(), k)
+				g.indent++
+				g.line("var %s = %d;", n, g.uniq())
+				g.probe()
+				g.indent--
+				g.line("}")
+				g.line("try { $(%d, %s, w$%d.%s); } catch { $(%d, \"!\"); }", k, n, k, n, k)
+			default:
+				g.line("with ({%s: %d}) {", n, g.uniq())
+				g.indent++
+				g.probe()
+				g.probe()
+				if g.rng.Bool() {
+					g.line("(function () { try { $(%d, %s); } catch { } })();", g.k, n)
+				}
+				g.indent--
+				g.line("}")
 			}
-			g.indent--
-			g.line("}")
 		} else {
 			g.probe()
 		}
